@@ -214,8 +214,16 @@ def run(ctx):
     try:
         smap = ev.eval_global(LOCAL, "STATUS_MAP")
     except CantEval as exc:
-        smap = None
-        r1.violation("src/gwf/backends/local.py::STATUS_MAP", f"cannot evaluate the local status map ({exc})", "src/gwf/backends/local.py:1")
+        # a derived table (comprehension over the enum, override dict...): evaluate the module constant with the interpreter
+        try:
+            from ..symeval import PureInterp
+            lmod = idx.repo.module(LOCAL)
+            smap = PureInterp(ctx).eval(ast.parse("STATUS_MAP", mode="eval").body, {}, lmod)
+            if not isinstance(smap, dict):
+                raise CantEval("not a dict")
+        except Exception as exc2:
+            smap = None
+            r1.violation("src/gwf/backends/local.py::STATUS_MAP", f"cannot evaluate the local status map ({exc}; {exc2})", "src/gwf/backends/local.py:1")
     if smap is not None:
         members = enum_members(idx, idx.cls(f"{LOCAL}:LocalStatus"))
         for m in members:
